@@ -417,7 +417,7 @@ func init() {
 		ID:        "C06",
 		Level:     "exploration",
 		NeedsTerm: true,
-		Rule: "two case kinds. invariants: C01-style random scripts in both modes; at every input wait 0 <= pos <= len, at main waits in Vi command mode pos < len unless the buffer or the cursor's line is empty, an active selection lies in [0,len]; when the call ends with a plain accept-line the returned line equals the buffer observed at the wait before RET. movement: one of 58 (command, keymap) pairs documented as pure movement/copy is bound by name to a probe key and invoked with a numeric argument (none, 1-99, negative) from a history-recalled buffer (ASCII, multi-byte, multi-line) after a random cursor walk (visual mode for select-* commands, y+motion for vi-yank-to); buffer text before == after. " +
+		Rule: "two case kinds. invariants: C01-style random scripts in both modes; at every input wait 0 <= pos <= len, at main waits in Vi command mode pos < len unless the buffer or the cursor's line is empty, an active selection lies in [0,len]; when the call ends with a plain accept-line the returned line equals the buffer observed at the wait before RET. One invariants case in four runs after an earlier call on the same Shell, judged too, ended by RET or accept-and-hold from whatever mode its script left it in. movement: one of 58 (command, keymap) pairs documented as pure movement/copy is bound by name to a probe key and invoked with a numeric argument (none, 1-99, negative) from a history-recalled buffer (ASCII, multi-byte, multi-line) after a random cursor walk (visual mode for select-* commands, y+motion for vi-yank-to); buffer text before == after. " +
 			"distinct non-trivial = distinct (command, keymap, argument class, buffer class, cursor class) tuples for movement cases and (command, keymaps) for invariant cases",
 		Assumptions: []string{"history-autosuggest off (accepting a suggestion with forward-char is a documented edit)", "numeric arguments <= 99 for movement probes"},
 		N: func(tier string) int {
